@@ -56,7 +56,8 @@ Definition contiguous_index (s e : Z) : list Z :=
 (* ------------------------------------------------------------------ _get_dst_indices *)
 
 (* The two places where the code as it is breaks the property are switches of the model, so that the same text
-   describes the unchanged code (`as_coded`) and the code after the proposed repairs (`repaired`); the harness
+   describes the code of round 1 (`as_coded`), the code after the repair of D11 (`d11_repaired`) and after the
+   proposed repair of D18 as well (`repaired`); the harness
    detects which one the implementation shows (probe) and the theorems are stated for both.
      count_rows   false: counts = df.groupby(date).count()["observed"]  (non-null usage cells: D11)
                   true : rows of the date (groupby(date).size())
@@ -64,6 +65,7 @@ Definition contiguous_index (s e : Z) : list Z :=
                   true : month = df[df.index.date == date] *)
 Record policy := { count_rows : bool; loc_by_mask : bool }.
 Definition as_coded : policy := {| count_rows := false; loc_by_mask := false |}.
+Definition d11_repaired : policy := {| count_rows := true; loc_by_mask := false |}.   (* /repo since commit 1e1d6b17 *)
 Definition repaired : policy := {| count_rows := true; loc_by_mask := true |}.
 
 (* counts = df.groupby(df.index.date).count(); counts["observed"] : non-null `observed` cells of the date *)
